@@ -145,6 +145,106 @@ func runC11(c *eng.Ctx) {
 	}
 	c.Expect("ORDER-reevaluate", 3)
 
+	// (3b) change detection reads the previous state before overwriting it
+	if fn := c.NeedFunc("weed/topology", "(*Disk).doAddOrUpdateVolume"); fn != nil {
+		isVolLookup := func(v ssa.Value) *ssa.Lookup {
+			var l *ssa.Lookup
+			eng.Walk(v, 5, func(x ssa.Value) bool {
+				if lk, ok := x.(*ssa.Lookup); ok && eng.MentionsField(lk.X, "Disk.volumes") {
+					l = lk
+					return false
+				}
+				_, isCall := x.(*ssa.Call)
+				return !isCall
+			})
+			return l
+		}
+		var updates []ssa.Instruction
+		for _, in := range eng.Find(fn, func(in ssa.Instruction) bool { mu, ok := in.(*ssa.MapUpdate); return ok && eng.MentionsField(mu.Map, "Disk.volumes") }) {
+			updates = append(updates, in)
+		}
+		n := 0
+		for _, in := range eng.Find(fn, func(in ssa.Instruction) bool { b, ok := in.(*ssa.BinOp); return ok && (b.Op == token.NEQ || b.Op == token.EQL) }) {
+			b := in.(*ssa.BinOp)
+			x, y := b.X, b.Y
+			if !(eng.MentionsField(x, "VolumeInfo.ReadOnly") && eng.MentionsField(y, "VolumeInfo.ReadOnly")) {
+				continue
+			}
+			lk := isVolLookup(x)
+			other := y
+			if lk == nil {
+				lk, other = isVolLookup(y), x
+			}
+			if lk == nil || !eng.MentionsParam(other, "v") {
+				continue
+			}
+			n++
+			stale := false
+			for _, u := range updates {
+				if h, _ := eng.Search(eng.After(u), eng.Is(lk), eng.SearchOpt{}); h != nil {
+					stale = true
+				}
+			}
+			c.Ob("ORDER-detect-change", fmt.Sprintf("%s readonly-compare#%d", eng.FuncName(fn), n), !stale, b.Pos(),
+				"the read-only flag of the previously registered volume is read before the registry entry is overwritten (otherwise a read-only change in a full heartbeat is never detected)")
+		}
+		if n == 0 {
+			c.Ob("ORDER-detect-change", eng.FuncName(fn)+" readonly-compare", false, fn.Pos(), "no comparison of the previous and the reported ReadOnly flag found")
+		}
+	}
+
+	// (3c) the layout registry is addressed with the same key by create and delete
+	{
+		ingredients := func(fn *ssa.Function, callee string) (map[string]bool, token.Pos) {
+			out := map[string]bool{}
+			var pos token.Pos
+			for _, call := range eng.Find(fn, eng.PlainCallTo(callee)) {
+				pos = call.Pos()
+				eng.Walk(eng.Arg(call.(*ssa.Call), 0), 10, func(v ssa.Value) bool {
+					switch x := v.(type) {
+					case *ssa.Call:
+						out["call:"+eng.Callee(x)] = true
+						if r := eng.RecvOf(x); r != nil {
+							if n := eng.ParamName(r); n != "" {
+								out["param:"+n] = true
+							}
+						}
+						return false
+					}
+					if n := eng.ParamName(v); n != "" {
+						out["param:"+n] = true
+						return false
+					}
+					return true
+				})
+			}
+			return out, pos
+		}
+		g := c.NeedFunc("weed/topology", "(*Collection).GetOrCreateVolumeLayout")
+		d := c.NeedFunc("weed/topology", "(*Collection).DeleteVolumeLayout")
+		if g != nil && d != nil {
+			gi, _ := ingredients(g, "util.ConcurrentReadMap).Get")
+			di, dpos := ingredients(d, "util.ConcurrentReadMap).Delete")
+			same := len(gi) == len(di) && len(gi) > 0
+			var diff []string
+			for k := range gi {
+				if !di[k] {
+					same = false
+					diff = append(diff, "only in create: "+k)
+				}
+			}
+			for k := range di {
+				if !gi[k] {
+					same = false
+					diff = append(diff, "only in delete: "+k)
+				}
+			}
+			c.Ob("SIB-layout-key", "Collection layout key create==delete", same, dpos, fmt.Sprintf("GetOrCreateVolumeLayout and DeleteVolumeLayout build the registry key from the same ingredients %v", diff))
+			all := gi["param:rp"] && gi["param:ttl"] && gi["param:diskType"]
+			c.Ob("SIB-layout-key", "Collection layout key covers rp+ttl+diskType", all, g.Pos(), "the registry key distinguishes replication, TTL and disk type")
+		}
+	}
+
 	// (4) truth table of enoughCopies
 	if fn := c.NeedFunc("weed/topology", "(*VolumeLayout).enoughCopies"); fn != nil {
 		isL := func(v ssa.Value) bool { cl, ok := v.(*ssa.Call); return ok && eng.CalleeIs(cl, "topology.VolumeLocationList).Length") }
